@@ -28,6 +28,8 @@ def run(tier, seed, args):
     wd = vlib.workdir("C05")
     exe = vlib.build_harness()
     ps = progs.c05_programs(seed, tier)
+    # intensity / colour as scaled integers with a negative scale (legal): the simple iterator must exist for them at all
+    ps += [dict(p, name="c05_" + p["name"]) for p in progs.c13_programs(seed, tier) if p["name"].startswith("sint_neg_scale")]
     # foreign layouts from the TLA+ encoder (packets that complete no point, index/ignored packets, cuts inside values)
     # incl. invalid-state values outside their documented set, which the real writer cannot produce
     import c03, materialize
